@@ -8,6 +8,28 @@ from spyne.error import ValidationError
 
 PROT = ProtocolBase()
 
+# the same round trip through a validating reader: what spyne wrote for a value of the type must be accepted as that type
+from harness.common import mk_element, fake_ctx
+from spyne import Application, Service, rpc
+from spyne.protocol.xml import XmlDocument
+
+
+class _Svc(Service):
+    @rpc(Integer, _returns=Integer)
+    def f(ctx, a):
+        return a
+
+
+_APP = Application([_Svc], 'tns', in_protocol=XmlDocument(validator='soft'), out_protocol=XmlDocument())
+_CTX = fake_ctx(_APP)
+XSOFT = XmlDocument(app=_APP, validator='soft')
+
+
+def read(sx, reader, T, text):
+    if reader == 'plain':
+        return PROT.from_unicode(T, text)
+    return XSOFT.from_element(_CTX, T, mk_element(sx, '{tns}v', text=text))
+
 BIG = 10 ** 30
 INT_TYPES = [
     (Integer8, -2 ** 7, 2 ** 7 - 1), (Integer16, -2 ** 15, 2 ** 15 - 1),
@@ -22,16 +44,18 @@ INT_FUNCS = ['spyne.protocol._outbase.OutProtocolBase.to_unicode',
              'spyne.protocol._inbase.InProtocolBase.integer_from_bytes']
 
 
-@harness('C08', params=INT_TYPES, functions=INT_FUNCS, label=lambda p: p[0].__type_name__,
-         bounds={'value': 'every int of the type (|v| <= 10^30 for the unbounded types)'})
+@harness('C08', params=[t + (r,) for t in INT_TYPES for r in ('plain', 'xml-soft')], functions=INT_FUNCS + ['spyne.protocol.xml.XmlDocument.base_from_element'],
+         label=lambda p: '%s %s' % (p[0].__type_name__, p[3]),
+         bounds={'value': 'every int of the type (|v| <= 10^30 for the unbounded types); read back by the plain text reader and by '
+                          'XmlDocument with soft validation'})
 def int_roundtrip(sx, p):
     """from_unicode(T, to_unicode(T, v)) == v and the written text is an xs:integer literal"""
-    T, lo, hi = p
+    T, lo, hi, reader = p
     v = sx.int('v', lo, hi)
     text = PROT.to_unicode(T, v)
     sx.observe('text', text)
     lex = sx.matches(r'[+-]?[0-9]+', text)
-    back = PROT.from_unicode(T, text)
+    back = read(sx, reader, T, text)
     return sx.And(lex, sx.is_int(back), sx.eq(back, v))
 
 
